@@ -128,6 +128,20 @@ CHECKS = {
         "bounds on frames/animals/depth; augmentation off for part (b)",
         "DESIGN.md §3 C11",
     ),
+    "C05": (
+        "model_checking",
+        "exhaustive small-scope enumeration of instance tuples x edge lists x image size x stride x sigma through the real PAF generators against relational oracles (unit vector, weight 1 on the segment, monotone fall-off, additivity, exact zeros, channel order)",
+        "Every instances array from a small coordinate alphabet (NaN, out-of-frame, coincident, border) for <=2 animals x <=3 nodes x every orientation/order of every tree edge list x sizes x strides x sigmas is run through generate_pafs / PartAffinityFieldsGenerator; the oracle is the property's relations evaluated cell by cell with a float64 reference distance. Two known findings (K1 sub-pixel edges, K2 border-strip animals) are matched by signature predicates only. Complete within the bound.",
+        "alphabet/shape bound; monotonicity margin 1e-4 in distance",
+        "DESIGN.md §3 C05",
+    ),
+    "C18": (
+        "exploration",
+        "exhaustive enumeration of label sets (all ordered 2-frame sets over 8 frame types) x covering configuration grid, three-framework differential (in-memory, .npz chunks, chunk function -> real litdata .bin chunks -> StreamingDataset) + DataPipe block vs function",
+        "For every label set of the alphabet and every configuration of the (strength-2 covering in quick, full product for the core sets in thorough) grid the same (frame, instance) sample is built by the three user-selectable frameworks with the real classes and compared (images to 8-bit quantisation, keypoints/centroids, confidence maps, PAFs) in the domain the property names; each of the 8 legacy DataPipe blocks is compared with its functional counterpart on every enumerated example. exhaustive: true within the stated alphabet and grid.",
+        "litdata hand-over uses litdata's in-process BinaryWriter (optimize() workers do not complete offline); quick grid is a strength-2 covering array, not the full product",
+        "DESIGN.md §3 C18",
+    ),
 }
 
 NOT_YET = {}
